@@ -3,7 +3,9 @@
 Decided statically: every archive of the restore chain is verified before the target is cleared and only verified
 archives are extracted; unlinking target files requires the explicit confirmation and no dry-run; verification returns Ok
 only on an equal checksum and member names are validated before they become paths; pruning consults parent links; full
-and incremental backups agree on the archive protocol and an incremental ships the snapshot its MANIFEST names.
+and incremental backups agree on the archive protocol, an incremental ships the snapshot its MANIFEST names and every listed / selected log
+segment is archived; restore targets are opened truncating and the point-in-time chain is recorded base first; nothing in the product sets the
+confirmation variable.
 Equality of the restored collection and detection of metadata edits other than the checksum are not decided.
 """
 import re
@@ -16,7 +18,8 @@ MANIFEST = {
             'both restore entry points, confirmation (allow_clear ∨ BACKUP_ALLOW_CLEAR=true) ∧ ¬dry_run dominating every unlink of '
             'the target directory, checksum gate, validated member names, closed inventory of unlink sites in backup.rs, prune '
             'retaining the parent chain of retained backups, full/incremental sibling agreement incl. shipping the snapshot the '
-            'archived MANIFEST names. Necessary conditions; equality of the restored collection is not decided.',
+            'archived MANIFEST names and every log segment it lists, truncating restore targets and base-first recording of the point-in-time chain, '
+            'no writer of the confirmation variable in the product. Necessary conditions; equality of the restored collection is not decided.',
     'design_ref': 'DESIGN.md §4.12, §5 F4/F5',
     'note': 'Trusted base: rustc MIR, loop-exit dominance for "all verified", path-sensitive exploration for the confirmation guard.',
     'technique': 'loop-exit dominance, path-sensitive guard check, origin tracing and closed inventories on MIR',
@@ -58,6 +61,53 @@ def named_bool(body, ov, p):
     if len([d for d in body.defs.get(ls[0], []) if d[2] in ('assign', 'call', 'pcall', 'passign')]) != 1:
         return p
     return '%sbool[%s]' % (m.group(1), flow.render(ov.of_local(ls[0])))
+
+
+def loop_source_full(body, head_call):
+    """util.loop_source with every variable expanded: the fully expanded origin of what a `for` loop iterates"""
+    a = head_call.args[0]
+    l = a['pl']['l'] if a.get('pl') else None
+    for _ in range(4):
+        nxt = None
+        for d in body.defs.get(l, []):
+            if d[2] == 'assign' and d[3]['rv']['k'] == 'ref':
+                nxt = d[3]['rv']['pl']['l']
+        if nxt is None:
+            break
+        l = nxt
+    return flow.render(flow.Origin(body).of_local(l))
+
+
+def file_opens(prog, body, tree, depth=2):
+    """[(body, origin tree of the call)] — the file-opening calls from which the value `tree` (a writer) obtains its file: through wrappers (BufWriter::new(..)), `?`,
+    alternatives, and local helper functions that return the File; the arguments of an opening call or of such a helper (the path) are not searched"""
+    t = tree
+    if t[0] == 'call':
+        if re.search(r'(^|::)(OpenOptions::open|File::create|File::create_new|File::open)$', flow.short(t[1])):
+            return [(body, t)]
+        g = prog.resolve_local(t[1])
+        if g is not None and g is not body and re.search(r'\bfs::File\b', g.locals[0]):
+            return file_opens(prog, g, flow.Origin(g).of_local(0), depth - 1) if depth > 0 else []
+        return [x for a_ in t[2] for x in file_opens(prog, body, a_, depth)]
+    if t[0] in ('field', 'downcast', 'cast', 'index', 'set'):
+        return file_opens(prog, body, t[1], depth)
+    if t[0] == 'phi':
+        return [x for a_ in t[1] for x in file_opens(prog, body, a_, depth)]
+    return []
+
+
+def opens_truncating(t):
+    """File::create, or an OpenOptions chain with write(true) and truncate(true) and without append"""
+    sh = flow.short(t[1])
+    if sh.endswith('File::create'):
+        return True
+    if not sh.endswith('OpenOptions::open') or not t[2]:
+        return False
+    on = {}
+    for x in flow.walk(t[2][0]):
+        if x[0] == 'call' and len(x[2]) == 2 and x[2][1][0] == 'const':
+            on[flow.short(x[1]).rsplit('::', 1)[-1]] = x[2][1][2]
+    return on.get('truncate') == 1 and on.get('write') == 1 and not on.get('append')
 
 
 def _body(prog, ident):
@@ -227,7 +277,8 @@ def run(ctx, prog):
 
     # ------------------------------------------------------------------ R2
     ctx.rule('C12.R2', 'confirmation guard: in clear_data_directory remove_file is reached only with (allow_clear ∨ BACKUP_ALLOW_CLEAR=true) '
-                       'and ¬dry_run; unlink sites of backup.rs are exactly own-archive cleanup ×2, prune ×2, clear ×1; nothing outside tests sets allow_clear')
+                       'and ¬dry_run; unlink sites of backup.rs are exactly own-archive cleanup ×2, prune ×2, clear ×1; nothing outside tests sets allow_clear, and nothing '
+                       'in the product writes the environment variable the guard reads (it is the operator\'s confirmation only if the product cannot supply it itself)')
     cd = ctx.body('C12.R2', 'RestoreManager::clear_data_directory')
     rm = [c.bb for c in cd.calls_to('std::fs::remove_file')]
     atoms = [pathsens.Atom('allow', r'^bool\[arg:options→ClearDirectoryOptions\.allow_clear\]$'),
@@ -294,6 +345,17 @@ def run(ctx, prog):
                     if not ((v.get('k') == 'c' and v.get('int') == 0) or val in ('0', 'false') or re.search(r'bool as .*Default>::default\(\)$|Default::default\(\)$', val)):
                         aggs.append('%s: %s' % (b.short, val))
     ctx.inst('C12.R2', 'ClearDirectoryOptions', 'constructed with allow_clear = false only', not aggs, 'other constructions: %s' % aggs)
+    # the second disjunct of the guard is the process environment: it is the OPERATOR's confirmation only as long as the product never writes it itself
+    km = re.search(r'env::var\("([^"]+)"\)', eo)
+    key = km.group(1) if km else None
+    setters = []
+    for c in prog.callers_of('std::env::set_var', 'std::env::remove_var'):
+        k_ = flow.render(flow.Origin(c.body).of_operand(c.args[0])) if c.args else '?'
+        if not re.match(r'^"[^"]*"$', k_) or (key is not None and k_ == '"%s"' % key) or key is None:
+            setters.append('%s: %s(%s) at %s' % (c.body.short, flow.short(c.callee), k_[:60], c.loc))
+    ctx.inst('C12.R2', 'process environment', 'nothing in the product sets the confirmation variable', key is not None and not setters,
+             ('the product itself writes the variable the guard reads as the operator\'s confirmation (or a variable it cannot name): %s' % '; '.join(setters)[:300]) if setters else
+             'no env::set_var / remove_var of %s (or of a computed name) in the workspace crates' % key)
 
     # ------------------------------------------------------------------ R3
     ctx.rule('C12.R3', 'checksum gate: verify_backup_archive returns Ok only past computed == metadata.checksum; every member name is '
@@ -443,8 +505,10 @@ def run(ctx, prog):
 
     # ------------------------------------------------------------------ R5
     ctx.rule('C12.R5', 'sibling agreement: full and incremental backup both run snapshot_source_fingerprints ≺ write_backup_archive ≺ '
-                       'verify_source_fingerprints before writing metadata, both archive the MANIFEST, and an archive that carries a MANIFEST '
-                       'carries the snapshot it names unless the parent already holds the same file')
+                       'verify_source_fingerprints before writing metadata, both archive the MANIFEST, an archive that carries a MANIFEST '
+                       'carries the snapshot it names unless the parent already holds the same file, and every loop that turns log segments into archive '
+                       'members archives EVERY element it walks (full: each segment the archived MANIFEST lists — a listed segment missing from the restored '
+                       'directory makes strict recovery refuse to start; incremental: each segment the R6 filter selected)')
     eff.define('fp', 'backup::snapshot_source_fingerprints')
     eff.define('write', 'backup::write_backup_archive')
     eff.define('verify', 'backup::verify_source_fingerprints')
@@ -471,6 +535,45 @@ def run(ctx, prog):
                  'checksum=Some(..) only past verify success: %s; metadata write dominated by checksum.expect(): %s' % (bool(sets) and all(b_ not in r for b_ in sets), bool(exp)))
         man = [c for c in f.calls if c.is_('backup::ArchiveEntry::from_bytes') and c.args and '"MANIFEST"' in flow.render(fo.of_operand(c.args[0]))]
         ctx.inst('C12.R5', f.short, 'archives the MANIFEST', bool(man), 'MANIFEST entries: %d' % len(man))
+        # every log segment the loop walks is archived: a `for` loop that builds archive members from its element (ArchiveEntry::from_path) pushes one on EVERY
+        # iteration (or leaves with Err) — into the list that receives the MANIFEST — and the loop over the MANIFEST's own list walks the list of the very
+        # MANIFEST that is serialized into the archive.  A listed segment that is skipped (empty, header-only, old, ..) is a file strict recovery of the restored
+        # directory requires and does not find
+        man_list = set(flow.render(fv.of_operand(c2.args[0])) for c2 in f.calls if c2.callee and c2.callee.endswith('::push') and len(c2.args) == 2 and
+                       any(flow.render(fo.of_operand(c2.args[1])) == flow.render(fo.of_local(m_.dest['l'])) for m_ in man if m_.dest))
+        ser = [flow.render(fo.of_operand(c2.args[0])) for c2 in f.calls if c2.callee and re.search(r'serde_json::(ser::)?to_vec(_pretty)?$', c2.callee) and c2.args]
+        n_loops, k_disk = 0, 0
+        seen_heads = set()
+        for e_ in [c2 for c2 in f.calls if c2.is_('backup::ArchiveEntry::from_path')]:
+            h = loop_head_for(f, e_.bb)
+            if h is None or h.bb in seen_heads or not any('Iterator>::next(' in flow.render(fo.of_operand(a_)) for a_ in e_.args):
+                continue
+            seen_heads.add(h.bb)
+            n_loops += 1
+            pushes_ = [c2 for c2 in f.calls if c2.callee and c2.callee.endswith('::push') and len(c2.args) == 2 and e_.dest and loop_head_for(f, c2.bb) is h and
+                       flow.render(fo.of_operand(c2.args[1])) == flow.render(fo.of_local(e_.dest['l']))]
+            s_e, f_e = flow.outcome_edges(f, h)
+            starts = [x[1] for x in (s_e or [])]
+            r = (f.reach(starts, avoid_blocks=[c2.bb for c2 in pushes_]) | set(starts)) - set(c2.bb for c2 in pushes_)
+            every = bool(pushes_) and bool(starts) and h.bb not in r
+            same_list = bool(pushes_) and all(flow.render(fv.of_operand(c2.args[0])) in man_list for c2 in pushes_)
+            src_full = loop_source_full(f, h)
+            listed = src_full.endswith('→Manifest.wal_segments')
+            if listed:
+                descr = 'every segment the archived MANIFEST lists is archived'
+                agree = any(src_full in (x + '→Manifest.wal_segments', 'slice::iter(%s→Manifest.wal_segments)' % x) for x in ser)
+            else:
+                descr = 'every selected on-disk segment is archived #%d' % k_disk
+                k_disk += 1
+                agree = True
+            ctx.inst('C12.R5', f.short, descr, every and same_list and agree,
+                     'loop over %s: %s' % (('…' + src_full[-70:]) if len(src_full) > 70 else src_full,
+                                           'the next iteration is reachable without an ArchiveEntry::from_path of the element having been pushed — a segment is left out of the archive' if not every else
+                                           'the members are not pushed into the list that receives the MANIFEST' if not same_list else
+                                           'the list walked is not the list of the MANIFEST that is serialized into the archive' if not agree else
+                                           'each iteration pushes its member or leaves with Err'))
+        ctx.floor('C12.R5', 'segment loops of %s' % f.short.split('::')[-1], n_loops, 1 if fn.endswith('create_incremental_backup') else 3,
+                  'incremental: the filtered list' if fn.endswith('create_incremental_backup') else 'MANIFEST list, legacy MANIFEST, no MANIFEST')
         # snapshot named by the archived manifest
         snap_push = [c for c in f.calls if c.is_('backup::ArchiveEntry::from_path') and c.args and re.search(r'snapshot_name|latest_snapshot|Legacy\.snapshot_number', flow.render(fv.of_operand(c.args[0])) + flow.render(fo.of_operand(c.args[0])))]
         reads_latest = any('Manifest.latest_snapshot' in str(s.get('rv', '')) for blk in f.blocks for s in blk['s'])
@@ -725,4 +828,41 @@ def run(ctx, prog):
         full_e = [(i_, tg) for i_, blk in enumerate(rb.blocks) if blk['t']['k'] == 'switch' and i_ in rb.live_blocks() for tg, p_ in flow.switch_edge_predicates(rb, i_, ov8)
                   if re.search(r'BackupMetadata\.backup_type', p_)]
         ctx.inst('C12.R8', rb.short, 'the walk tests backup_type (ends at a Full, refuses a chain without one)', len(full_e) >= 3, 'backup_type tests: %d edges' % len(full_e))
+    # ------------------------------------------------------------------ R9 later archives of a chain replace what earlier ones wrote
+    ctx.rule('C12.R9', 'chain extraction: every archive of a chain carries a MANIFEST (R5) and an incremental can carry its parent\'s highest segment (R6), so restoring a '
+                       'chain writes the same file name more than once and the LAST writer must win completely: (a) the file an archive member is extracted into is '
+                       'opened truncating (File::create, or OpenOptions with write(true) and truncate(true)) — without it a shorter later MANIFEST keeps the tail of the '
+                       'older one and start-up from the restored directory is refused; (b) the point-in-time entry point records (and therefore extracts: R1) the base '
+                       'Full archive before the incrementals of the walk — recorded after them, the Full overwrites the newer MANIFEST and segment and the directory '
+                       'silently starts as of the Full backup (restore-by-id: the reversed chain of R8)')
+    ex9 = ctx.body('C12.R9', 'RestoreManager::extract_backup_archive')
+    if ex9 is not None:
+        o9 = flow.Origin(ex9)
+        sinks = [c for c in ex9.calls if c.callee and c.is_('backup::stream_member_to_writer', 're:io::copy$', 're:Write>::write_all$', 're:fs::write$')]
+        opens = []
+        for c in sinks:
+            for a_ in c.args[1:2] if c.is_('backup::stream_member_to_writer', 're:io::copy$') else c.args[:1]:
+                opens += file_opens(prog, ex9, o9.of_operand(a_))
+        uniq = []
+        for b_, t_ in opens:
+            if (b_.id, flow.render(t_)) not in [(x.id, flow.render(y)) for x, y in uniq]:
+                uniq.append((b_, t_))
+        bad9 = [(b_, t_) for b_, t_ in uniq if not opens_truncating(t_)]
+        ctx.inst('C12.R9', ex9.short, 'a restore target that already exists is truncated', bool(sinks) and bool(uniq) and not bad9,
+                 ('%s in %s opens the target without truncating it: a later archive of the chain overwrites only the beginning of the file an earlier one wrote' % (
+                     flow.render(bad9[0][1])[:160], bad9[0][0].short)) if bad9 else
+                 '%d member sink(s); opened by %s' % (len(sinks), '; '.join('%s in %s' % (flow.short(t_[1]), b_.short) for b_, t_ in uniq)[:160] or 'nothing recognised'))
+    pit9 = ctx.body('C12.R9', 'RestoreManager::restore_point_in_time_with_options')
+    if pit9 is not None:
+        v9 = flow.Origin(pit9, stop_at_vars=True)
+        push9 = [c for c in pit9.calls if c.callee and c.callee.endswith('::push') and len(c.args) == 2 and flow.render(v9.of_operand(c.args[0])) == 'var:verified_archives']
+        base9 = [c for c in push9 if loop_head_for(pit9, c.bb) is None and re.match(r'^tuple\{var:full_backup→BackupMetadata\.id, ', flow.render(v9.of_operand(c.args[1])))]
+        hops9 = [c for c in push9 if c not in base9]
+        heads9 = [loop_head_for(pit9, c.bb) for c in hops9]
+        in_walk = bool(hops9) and all(h is not None and iterated(util.loop_source(pit9, h)) == 'var:incrementals' for h in heads9)
+        first = len(base9) == 1 and in_walk and all(pit9.dominates(base9[0].bb, h.bb) and base9[0].bb not in pit9.reach([h.bb]) for h in heads9)
+        ctx.inst('C12.R9', pit9.short, 'the base (Full) archive is recorded before the incrementals of the walk', first,
+                 ('pushes into verified_archives: %d for the base, %d others; others inside a loop over the collected incrementals: %s; %s' % (
+                     len(base9), len(hops9), in_walk, 'base first' if first else
+                     'the Full archive is recorded after (or not before) the incrementals: extraction follows the recording order, so the Full overwrites the newer MANIFEST and shared segment')))
     ctx.stat('functions_analysed', len(set(i['key'].split(' | ')[1] for i in ctx.instances)))
